@@ -10,7 +10,7 @@ against it, the worktree is removed.  Result: build/leaf_bench.json and a summar
 import json, os, subprocess, sys, glob, shutil, re
 from concurrent.futures import ThreadPoolExecutor
 ROOT = os.path.dirname(os.path.dirname(os.path.abspath(__file__)))
-SW = "/tmp/leafbench"
+SW = "/tmp/leafbench-%d" % os.getpid()
 
 def one(d):
     name = os.path.basename(d)
@@ -50,8 +50,9 @@ def main():
     with ThreadPoolExecutor(j) as ex:
         results = list(ex.map(one, dirs))
     subprocess.run(["git", "-C", "/repo", "worktree", "prune"], capture_output=True)
+    shutil.rmtree(SW, ignore_errors=True)
     os.makedirs(os.path.join(ROOT, "build"), exist_ok=True)
-    json.dump(results, open(os.path.join(ROOT, "build", "leaf_bench.json"), "w"), indent=1)
+    json.dump(results, open(os.path.join(ROOT, "build", "leaf_bench_%s.json" % which), "w"), indent=1)
     bp = os.path.join(ROOT, "tools", "leaf_bench_baseline.json")
     base = json.load(open(bp)) if os.path.exists(bp) else {}
     hs = [r for r in results if "-h" in r["id"]]
